@@ -97,24 +97,32 @@ def oracle(case: dict, recs: list[dict]) -> list[Failure]:
         if not a["paused"] and b["paused"]:
             # the pause begins in this tick: whatever began it (one Pause, several Pause requests, a Pause and an
             # error), the values to restore are the outputs from before this tick
-            if unresolved >= 1:
-                period = {"kind": "cmd", "expected": list(a["outs"]), "multi": unresolved > 1 or error}
+            # `re`: what a Pause body that ran while already paused would have captured instead (the safe
+            # values, or the outputs at that later moment) - only used to name the failure
+            safe_now = [SAFES[j] if SAFES[j] is not None else a["outs"][j] for j in range(len(SAFES))]
+            if op[0] != "tick":
+                # an error between ticks began the pause; Pause requests still queued run in a later tick
+                period = {"kind": "cmd" if unresolved else "error", "expected": list(a["outs"]), "re": []}
+            elif unresolved >= 1:
+                period = {"kind": "cmd", "expected": list(a["outs"]),
+                          "re": [safe_now] if (unresolved > 1 or error) else []}
+                unresolved = 0
             elif error:
-                period = {"kind": "error", "expected": list(a["outs"])}   # an error pause
+                period = {"kind": "error", "expected": list(a["outs"]), "re": []}   # an error pause
             else:
                 period = {"kind": "ambiguous"}                            # cause unknown to the oracle
-            unresolved = 0
         elif a["paused"] and b["paused"]:
-            if unresolved > 0 and period is not None and period["kind"] == "cmd":
-                period["multi"] = True       # a Pause body ran while already paused
+            if op[0] == "tick" and unresolved > 0 and period is not None and period["kind"] in ("cmd", "error"):
+                period["kind"] = "cmd"
+                period["re"].append(list(a["outs"]))      # a Pause body ran while already paused
                 unresolved = 0
         elif a["paused"] and not b["paused"]:
             if same_run and period is not None and unresolved == 0:
                 if period["kind"] == "cmd":
                     bad = [j for j in safe_idx if b["outs"][j] != period["expected"][j]]
                     if bad:
-                        key = ("unpause-restores-safe-values-after-double-pause"
-                               if period.get("multi") and all(b["outs"][j] == SAFES[j] for j in bad)
+                        key = ("unpause-restores-capture-of-pause-while-paused"
+                               if any(all(b["outs"][j] == alt[j] for j in safe_idx) for alt in period["re"])
                                else "unpause-restores-wrong-values")
                         fail(key, i, f"outputs before the pause began {period['expected']}, after Unpause "
                                      f"{b['outs']}")
